@@ -24,9 +24,14 @@ MANIFEST = {
             "C13_domain_exceeds_bound_refuted (an interface of the C12 domain with a 65544 byte message). Model/Proto.v models the expanded "
             "TEMPLATEReceiver.cpp / TEMPLATETransmitter.cpp, whose shape translator/prototmpl.py re-recognises on every run.",
     "note": "Trusted: Coq 8.16.1 kernel; no axioms; translator/prototmpl.py and translator/cxxconn.py (strict pattern matching); extraction + "
-            "ocaml/cmds_conn.ml; the generated probe source in harness/props/c13.py. Modelled, not verified: the template engine that "
-            "expands PER_MSG blocks (one case / one Transmit function per message, <<<MSGID>>> -> str(MessageTypeID)) -- tied per generated "
-            "interface by running the compiled artefact; g++ semantics of switch / reinterpret_cast / integer conversions; struct layout "
+            "ocaml/cmds_conn.ml; the generated probe source in harness/props/c13.py. ENGINE BRIDGE (C13_receiver_engine, C13_transmitter_engine, C13_delivery_engine): the PER_MSG expansion "
+            "is no longer only tied by running: the shipped TEMPLATEReceiver.cpp / TEMPLATETransmitter.cpp are whole files of the C16 template grammar "
+            "(<<<MSGID>>> from the interface's ids, text after an end tag), and for every interface with distinct message names admitted for the file "
+            "(rx_wf / tx_wf, evaluated per case) the engine model's pipeline writes the reference expansion, whose switch block is exactly one "
+            "`case <id>: On<Msg>Received(...)` per message in interface order (id 0 is printed) and whose transmitter has one Transmit<Msg> with the "
+            "retry loop and one TestSendAll call per message; C13_delivery is restated over those case lines. The real <Name>Receiver.cpp / "
+            "<Name>Transmitter.cpp are compared with the reference AS WHOLE FILES for every compiled interface and for 60 (600 thorough) more random "
+            "interfaces. EngineSM.inner_msgs is a hand transcription of the MSGID part of innerexpand_secondfiltering_PROTO. Modelled, not verified: g++ semantics of switch / reinterpret_cast / integer conversions; struct layout "
             "(C12's subject: sizeof is read from the compiled probe). The connection layer is the model of C14.",
 }
 RULE = ("random interfaces (1..5 messages with arbitrary distinct uint16 ids incl. 0, 65535 and the preamble value, nested packed structs, all "
@@ -328,6 +333,32 @@ def bound_eval(ctx, iface, msgs, sizes, key):
     return wf, over
 
 
+def engine_text_check(ctx, iface, sizes, seed):
+    """The real <Name>Receiver.cpp / <Name>Transmitter.cpp AS WHOLE FILES are what the engine model writes from the shipped templates read
+    into the Coq template syntax (C13_receiver_engine / C13_transmitter_engine): one case per message with its id (0 included), one
+    Transmit<Msg> per message, in interface order.  Generated once more under the class name of dict0 (X)."""
+    from .. import engine_e2e as e2e
+    structs, protos, names = e2e.iface_parts(iface)
+    sz = dict(zip(names, sizes)) if len(names) == len(sizes) else {}
+    i3 = [[n, str(int(iface[n].MessageTypeID)), str(sz.get(n, 8))] for n in names]
+    with kj.scratch() as d2:
+        kj.generate("proto", d2, iface=iface, ns="NS", name="X")
+        real = {}
+        for fn in ("XReceiver.cpp", "XTransmitter.cpp"):
+            with open(os.path.join(d2, fn)) as fh:
+                real[fn] = fh.read()
+    for fn, wfc, refc in (("XReceiver.cpp", "p13.rx_wf", "p13.rx_ref"), ("XTransmitter.cpp", "p13.tx_wf", "p13.tx_ref")):
+        if ctx.km.call(wfc, structs, protos, i3, []) != b"1":
+            ctx.count("engine_text_outside_domain_" + fn)
+            continue
+        ref = ctx.km.call(refc, structs, protos, i3, []).decode("utf-8", "surrogateescape")
+        ctx.count("engine_text_compared_" + fn)
+        if ref != real[fn]:
+            k = next((j for j, (x, y) in enumerate(zip(ref, real[fn])) if x != y), min(len(ref), len(real[fn])))
+            ctx.tie_broken("the generated %s differs from ref16 of the whole shipped template (Model/ProtoRender)" % fn,
+                           {"iface_seed": seed, "at": k, "real": real[fn][max(0, k - 100):k + 150], "ref16": ref[max(0, k - 100):k + 150]})
+
+
 def run_interface(ctx, seed, nsessions, replay_script=None):
     rng = random.Random(seed)
     iface, pre, msgs = random_interface(rng, str(seed % 1000))
@@ -343,6 +374,8 @@ def run_interface(ctx, seed, nsessions, replay_script=None):
                 if ctx.km.call("proto_iface_ok", ifc) != b"1":
                     ctx.tie_broken("generator produced an interface outside the theorem's domain", {"iface_seed": seed})
             bound_eval(ctx, iface, msgs, sizes, seed)
+            if ctx.km is not None:
+                engine_text_check(ctx, iface, sizes, seed)
             fails = []
             if replay_script is not None:
                 r = session(ctx, probe, rng, pre, msgs, sizes, script=replay_script)
@@ -401,6 +434,14 @@ def run(ctx):
         for f in run_interface(ctx, seed, n_sess):
             f["script"] = script_json(f.get("script"))
             ctx.violation(f["detail"][:300], f)
+    # the engine bridge on many more interfaces (text only, nothing is compiled): ids 0 / 65535 / preamble value included
+    if ctx.km is not None:
+        for j in range(ctx.budget(60, 600)):
+            rj = random.Random(ctx.rng.randrange(1 << 30))
+            iface_j, _pre, msgs_j = random_interface(rj, "T%d" % j)
+            engine_text_check(ctx, iface_j, [8] * len(msgs_j), j)
+            if any(mid == 0 for _n, mid in msgs_j):
+                ctx.count("engine_text_interface_with_id_0")
     r = big_case(ctx)
     ctx.case(("big",))
     if r:
